@@ -33,8 +33,14 @@ TRUSTED_BASE = [
     'translator translate/debugger_stream.py (ast -> statement trees of StdInOut.__init__/write/flush/readline, Factory._factory, '
     'CustomizedPdb.__init__, peek_textio and its wrapper, peek_stdout, peek_stdout_by_key, Repeater.on_write_stdout; Gen/DebuggerStream.v) '
     'and the interpreter of those trees in coq/theories/Stdout/DebugTie.v (semantics of the small statement language, of the factory terms '
-    'and of the two-sink labels); modelled, not verified: pdb.Pdb / cmd.Cmd write everything to the stdout they were constructed with '
-    '(sys.stdout when none is given) and read commands with stdin.readline(); one Pdb per trace number, running in that trace (C06)',
+    'and of the two-sink labels).  pdb.Pdb / cmd.Cmd are NOT translated: that they write only to the stdout they were constructed with '
+    'and never rebind sys.stdout are HYPOTHESES of the theorems (no_sys_write, no_swap on the label list); both are false of CPython 3.12 '
+    '(help pdb / interact; Pdb.default): C13_*_refuted_* witnesses, reproduced on every run by FIXED_TWOSINK_FINDINGS (real Pdb objects) and '
+    'run_findings (real nextline.spawned.main) and compared with the model labels LDbgSysWrite / LSwapOn / LSwapOff; CustomizedPdb may define '
+    'only __init__/_cmdloop/cmdloop/set_continue (translator fails closed), their calls are whitelisted in Coq; one Pdb per trace number, '
+    'running in that trace (C06); peek_textio try/finally is body-then-finally (no exception inside the with block is modelled); '
+    'other_stdout_uses is a syntactic scan (print, sys.stdout/__stdout__, .stdout/.displayhook attributes, import sys as, pprint/pydoc/code, '
+    'input/breakpoint/os.write) of nextline/spawned and nextline/utils',
     'hand-written wiring in Stdout/Model.v (peek_stdout_by_key, PeekStdout, Repeater.on_write_stdout); its ast shape is pinned '
     'by the translator and its behaviour is compared with the real code on every run',
     'correspondence harness harness/props/c13.py (program generator, derivation of the write() calls made by print(), '
@@ -407,15 +413,28 @@ class FakeHook:
         return self.answer
 
 
+_TWOSINK_INNER: list = []
+
+
+def _twosink_inner():
+    """executed by the real Pdb.default as a `!statement`: the writes other code makes in that window"""
+    for f in _TWOSINK_INNER:
+        f()
+
+
 def impl_twosink(ops):
     """ops: ['S', key, text] the script writes to sys.stdout while current_trace_no() = key;
             ['W', n, text] / ['M', n, text] / ['F', n] / ['R', n, cmd]: the REAL Pdb object the REAL factory built for trace n
-            writes text to its stdout / prints a message / flushes / reads a command (answered with cmd).
-    Real code: pdb_/factory.py:Factory (-> CustomizedPdb, StdInOut), peek_stdout_by_key around a recording sys.stdout."""
+            writes text to its stdout / prints a message / flushes / reads a command (answered with cmd);
+            ['H', n, topic]: that Pdb executes the command `help <topic>` (pdb.onecmd);
+            ['X', n, [[key, text], ...]]: that Pdb executes a Python statement as a command (the real Pdb.default) during
+            which the given script writes happen (in the real system: other threads printing in that window).
+    Real code: pdb_/factory.py:Factory (-> CustomizedPdb, StdInOut), peek_stdout_by_key around a recording sys.stdout.
+    -> callbacks, real writes, prompt-function calls, commands, labels of the two-sink model"""
     import logging
     from nextline.spawned.plugin.plugins.pdb_.factory import Factory
     from nextline.spawned.plugin.plugins.peek import peek_stdout_by_key
-    got, cmds = [], []
+    got, cmds, labels = [], [], []
     cur = [None]
     rec = RecStdout()
     hook = FakeHook()
@@ -437,17 +456,43 @@ def impl_twosink(ops):
                 if op[0] == 'S':
                     cur[0] = op[1]
                     sys.stdout.write(op[2])
+                    labels.append(op)
                     continue
                 n = op[1]
                 pdb = pdb_of(n)
                 cur[0] = n
                 hook.cur = n
+                labels.extend(twosink_labels([op]) if op[0] in 'WMFR' else [])
                 if op[0] == 'W':
                     pdb.stdout.write(op[2])
                 elif op[0] == 'M':
                     pdb.message(op[2])
                 elif op[0] == 'F':
                     pdb.stdout.flush()
+                elif op[0] == 'H':
+                    before = len(rec.writes)
+                    own = getattr(pdb.stdout, '_prompt_text', '')
+                    pdb.onecmd('help ' + op[2])
+                    # what reached the real stdout during the command was written to sys.stdout by the debugger,
+                    # what its own stream gained was written to the stdout it was constructed with
+                    labels.extend(['Y', n, w] for w in rec.writes[before:])
+                    now = getattr(pdb.stdout, '_prompt_text', '')
+                    if now.startswith(own) and now != own:
+                        labels.append(['W', n, now[len(own):]])
+                elif op[0] == 'X':
+                    def mk(a, t):
+                        def f():
+                            cur[0] = a
+                            sys.stdout.write(t)
+                        return f
+                    _TWOSINK_INNER[:] = [mk(a, t) for a, t in op[2]]
+                    pdb.curframe = sys._getframe()
+                    pdb.curframe_locals = {}
+                    labels.append(['ON', n])
+                    labels.extend(['S', a, t] for a, t in op[2])
+                    labels.append(['OFF', n])
+                    pdb.default('_twosink_inner()')
+                    cur[0] = n
                 elif op[0] == 'R':
                     hook.answer = op[2]
                     try:
@@ -457,7 +502,7 @@ def impl_twosink(ops):
     finally:
         logging.disable(logging.NOTSET)
         sys.stdout = old
-    return got, rec.writes, hook.asked, cmds
+    return got, rec.writes, hook.asked, cmds, labels
 
 
 def twosink_labels(ops):
@@ -511,6 +556,12 @@ def file_twosink(cases) -> str:
             return f'DW {int(op[1])} {ctext(op[2])}'
         if op[0] == 'F':
             return f'DF {int(op[1])}'
+        if op[0] == 'Y':
+            return f'DSW {int(op[1])} {ctext(op[2])}'
+        if op[0] == 'ON':
+            return f'DON {int(op[1])}'
+        if op[0] == 'OFF':
+            return f'DOFF {int(op[1])}'
         return f'DR {int(op[1])} {ctext(op[2])}'
     rows = []
     for labels, got, real, asked, cmds in cases:
@@ -523,16 +574,67 @@ def file_twosink(cases) -> str:
             '(cs_of (fst (snd (snd c))), cs_of (snd (snd (snd c))))))) cases).\n')
 
 
+SIG_HELP_PDB = 'debugger-text-reported:help-pdb'
+SIG_INTERACT = 'debugger-text-reported:interact-prompt'
+SIG_BANG = 'script-output-lost:statement-command-swaps-sys.stdout'
+
+
+def twosink_script_ops(ops):
+    """the SCRIPT's writes of a two-sink case, as ops of oracle_plain: the 'S' ops and, for a statement command of
+    trace n, the writes OTHER traces make in its window (what the statement itself prints is command output)"""
+    out = []
+    for op in ops:
+        if op[0] == 'S':
+            out.append([op[1], ['write', op[2]]])
+        elif op[0] == 'X':
+            out += [[a, ['write', t]] for a, t in op[2] if a != op[1]]
+    return out
+
+
 def oracle_twosink(ops, got, real):
     """the property, on the observed behaviour: what is reported and what reaches the real stdout is what the SCRIPT wrote"""
-    script = [[op[1], ['write', op[2]]] for op in ops if op[0] == 'S']
+    script = twosink_script_ops(ops)
     bad = oracle_plain(script, got, real)
-    if bad and len(script) < len(ops):
-        g2, r2, _, _ = impl_twosink([op for op in ops if op[0] == 'S'])
+    if not bad:
+        return bad
+    what = '; '.join(w for _, w in bad)[:300]
+    if any(op[0] == 'H' for op in ops):
+        return [(SIG_HELP_PDB, 'the debugger command `help pdb` (pydoc.pager writes to sys.stdout): ' + what)]
+    if any(op[0] == 'X' and any(a != op[1] for a, _ in op[2]) for op in ops):
+        return [(SIG_BANG, 'a Python statement as a debugger command (Pdb.default binds sys.stdout to its own stream '
+                           'process-wide) while another trace writes: ' + what)]
+    if len(script) < len(ops):
+        g2, r2 = impl_twosink([op for op in ops if op[0] == 'S'])[:2]
         if not oracle_plain(script, g2, r2):
             dbg = ''.join(op[2] for op in twosink_labels(ops) if op[0] == 'W')
-            return [('debugger-text-reported', f'with the debugger\'s writes ({dbg[:60]!r}) interleaved: ' + '; '.join(w for _, w in bad)[:300])]
+            return [('debugger-text-reported', f'with the debugger\'s writes ({dbg[:60]!r}) interleaved: ' + what)]
     return bad
+
+
+# the two behaviours of CPython's pdb that break the last sentence of C13, against the real Pdb objects
+FIXED_TWOSINK_FINDINGS = [
+    [['S', 1, 'a\n'], ['W', 1, PDB_PROMPT], ['R', 1, 'help pdb'], ['H', 1, 'pdb'], ['S', 1, 'b\n']],
+    [['W', 1, PDB_PROMPT], ['R', 1, '!import time; time.sleep(0.6)'], ['X', 1, [[2, 'T|tick\n']]], ['W', 1, PDB_PROMPT], ['R', 1, 'c'],
+     ['S', 2, 'T|tock\n']],
+    # not a violation: what the statement itself prints is command output (it goes to the prompt text)
+    [['W', 1, PDB_PROMPT], ['R', 1, '!print(1)'], ['X', 1, [[1, '1\n']]], ['W', 1, PDB_PROMPT], ['R', 1, 'c'], ['S', 1, 'x\n']],
+    # not a violation: `help` / `help next` go through self.stdout
+    [['S', 1, 'a'], ['H', 1, ''], ['H', 1, 'next'], ['S', 1, 'b\n']],
+]
+
+
+def gen_twosink_finding_cases(rng, n: int):
+    cases = []
+    for i in range(n):
+        base = gen_twosink_cases(rng, 1, 8)[0]
+        t = rng.choice([1, 2, 3])
+        if i % 2 == 0:
+            extra = ['H', t, rng.choice(['pdb', 'pdb', 'next', ''])]
+        else:
+            extra = ['X', t, [[rng.choice([1, 2, 3]), rand_text(rng)] for _ in range(rng.randint(1, 3))]]
+        k = rng.randint(0, len(base))
+        cases.append(base[:k] + [extra] + base[k:])
+    return cases
 
 
 def run_twosink(ctx, corr: Corr, cases, seen: set):
@@ -541,11 +643,10 @@ def run_twosink(ctx, corr: Corr, cases, seen: set):
                                                     'readlines_refused': 0, 'script_line_around_debugger_text': 0})
     for ops in cases:
         try:
-            got, real, asked, cmds = impl_twosink(ops)
+            got, real, asked, cmds, labels = impl_twosink(ops)
         except Exception as e:
             corr.mismatches.append({'kind': 'twosink-raised', 'ops': ops, 'exc': repr(e)})
             continue
-        labels = twosink_labels(ops)
         obs.append((labels, got, real, asked, cmds))
         key = 'ts' + json.dumps(ops)
         if key not in seen:
@@ -856,7 +957,9 @@ POLICIES = [
 ]
 
 
-INFO_CMDS = ['list', 'where', 'p 6*7', 'args', 'help next', 'pp __name__', 'whatis sys', 'p "M|T1|A1|fake"', 'll', 'bt']
+INFO_CMDS = ['list', 'where', 'p 6*7', 'args', 'help next', 'help', 'pp __name__', 'whatis sys', 'p "M|T1|A1|fake"', 'll', 'bt']
+# `help pdb`, `interact` and `!statement` under threads break the property on the unchanged tree (known findings): they are
+# issued by the dedicated scenarios of run_findings / FIXED_TWOSINK_FINDINGS, with signatures of their own
 
 
 class InfoPolicy:
@@ -887,6 +990,38 @@ class InfoPolicy:
 
 def make_policy(args):
     return InfoPolicy(args)
+
+
+class FindingPolicy:
+    """Runs in the child worker: the command policies of the two known behaviours of CPython's pdb that break the last
+    sentence of C13.  args: {'first': cmd} -- answer the very first prompt with cmd; {'at_line': n, 'cmd': c} -- answer the
+    first prompt of trace 1 at line n with c.  Every other prompt of trace 1: 'next'; other traces: 'continue'."""
+
+    def __init__(self, args):
+        self.args = args
+        self.done = False
+
+    def on_event(self, ev, put):
+        if ev['type'] != 'OnStartPrompt':
+            return
+        t = ev['trace_no']
+        if not self.done and t == 1:
+            if 'first' in self.args:
+                self.done = True
+                put(t, ev['prompt_no'], self.args['first'])
+                return
+            if ev.get('line_no') == self.args.get('at_line'):
+                self.done = True
+                put(t, ev['prompt_no'], self.args['cmd'])
+                return
+        put(t, ev['prompt_no'], 'next' if t == 1 else 'continue')
+
+    def summary(self):
+        return {'info_commands': int(self.done)}
+
+
+def make_finding_policy(args):
+    return FindingPolicy(args)
 
 
 def make_job(rng, prog: dict, i: int) -> dict:
@@ -1294,6 +1429,103 @@ def load_corpus():
     return plain, progs
 
 
+BANG_SRC = ("import threading, time\n"
+            "def f():\n"
+            "    for i in range(24):\n"
+            "        print('T|tick', i)\n"
+            "        time.sleep(0.05)\n"
+            "t = threading.Thread(target=f)\n"
+            "t.start()\n"
+            "x = 1\n"
+            "t.join()\n"
+            "print('M|done')\n")
+HI_SRC = "x = 1\nprint('M|script says hi')\n"
+
+
+def finding_jobs():
+    pol = lambda args: {'kind': 'custom', 'module': 'harness.props.c13', 'func': 'make_finding_policy', 'args': args}
+    return [
+        ('help-pdb', {'src': HI_SRC, 'policy': pol({'first': 'help pdb'}), 'timeout': 40}),
+        ('help', {'src': HI_SRC, 'policy': pol({'first': 'help'}), 'timeout': 40}),
+        ('interact', {'src': HI_SRC, 'policy': pol({'first': 'interact'}), 'timeout': 40}),
+        ('bang', {'src': BANG_SRC, 'policy': pol({'at_line': 8, 'cmd': '!import time; time.sleep(0.6)'}), 'timeout': 60}),
+    ]
+
+
+def analyse_finding(name: str, job: dict, r: dict):
+    """-> (oracle hits [(sig, what)], model case or None, statistics) for one finding scenario"""
+    ev = [[e['trace_no'], e['text']] for e in r.get('events', []) if e.get('type') == 'OnWriteStdout']
+    prompts = [[e['trace_no'], e.get('prompt_text', '')] for e in r.get('events', []) if e.get('type') == 'OnStartPrompt']
+    out = r.get('stdout') or ''
+    hits, case = [], None
+    if name in ('help-pdb', 'help', 'interact'):
+        want = "M|script says hi\n"
+        rep_ = ''.join(x for t, x in ev if t == 1)
+        stats = {'reported_chars': len(rep_), 'script_chars': len(want)}
+        if rep_ != want or out != want:
+            sig = {'help-pdb': SIG_HELP_PDB, 'interact': SIG_INTERACT}.get(name, 'debugger-text-reported')
+            extra = rep_.replace(want, '')
+            hits.append((sig, f'system level, debugger command `{job["policy"]["args"]["first"]}` at the first prompt: the script wrote '
+                              f'{want!r}; reported for trace 1: {len(rep_)} characters, of which {len(extra)} are debugger text '
+                              f'({extra[:70]!r}...); real stdout received {len(out)} characters'))
+        # mechanism: the surplus on the real stdout is what the debugger wrote to sys.stdout before the script's line
+        if out.endswith(want):
+            labels = ([['Y', 1, out[:-len(want)]]] if out != want else []) + [['S', 1, want]]
+            case = (labels, ev, [out], [], [])
+    else:
+        ticks = [f'T|tick {i}\n' for i in range(24)]
+        rep2 = ''.join(x for t, x in ev if t == 2)
+        in_prompt = [k for k in ticks if any(k in p for t, p in prompts if t == 1)]
+        lost = [k for k in ticks if k not in rep2]
+        stats = {'ticks_written': len(ticks), 'ticks_reported': len(ticks) - len(lost), 'ticks_in_prompt_text_of_trace_1': len(in_prompt)}
+        if lost or not subseq(''.join(ticks), out):
+            sig = SIG_BANG if lost and set(lost) == set(in_prompt) else 'lost-output'
+            hits.append((sig, f'system level, `!import time; time.sleep(0.6)` at a prompt of the main thread (trace 1) while thread T '
+                              f'(trace 2) prints: {len(lost)} of {len(ticks)} lines of T ({lost[0]!r} .. {lost[-1]!r}) are neither reported nor on the '
+                              f'real stdout; {len(in_prompt)} of them are in the PROMPT TEXT of trace 1'))
+        if lost and ticks[:len(lost)] == lost:
+            labels = [['ON', 1]] + [['S', 2, k] for k in lost] + [['OFF', 1]] + [['S', 2, k] for k in ticks[len(lost):]] + [['S', 1, 'M|done\n']]
+            case = (labels, [e for e in ev if e[0] in (1, 2)], [out], [], [])
+    return hits, case, stats
+
+
+def run_findings(ctx, corr: Corr):
+    """The debugger commands under which CPython's pdb does NOT keep to the stdout it was constructed with, through the
+    real nextline.spawned.main: `help pdb` (and `help`, which is harmless), `interact`, and a Python statement as a
+    command while another thread prints.  Oracle: the property text on the observed events; the mechanism is compared
+    with the two-sink model (labels LDbgSysWrite / LSwapOn / LSwapOff)."""
+    from .. import child
+    named = finding_jobs()
+    results = child.run_jobs([dict(j, form='str', trace_threads=True, trace_modules=False) for _, j in named], par=4, chunk=1)
+    hist = corr.extra.setdefault('finding_scenarios', {})
+    model_cases = []
+    for (name, job), r in zip(named, results):
+        if r.get('error') or r.get('fmt_exc'):
+            corr.mismatches.append({'kind': 'finding-scenario-run-failed', 'scenario': name, 'error': r.get('error'), 'exc': (r.get('fmt_exc') or '')[-300:]})
+            continue
+        corr.evaluations += 1
+        hits, case, stats = analyse_finding(name, job, r)
+        hist[name] = stats
+        payload = {'level': 'system', 'scenario': name, 'job': job,
+                   'observed_events': [[e['trace_no'], e['text'][:120]] for e in r.get('events', []) if e.get('type') == 'OnWriteStdout'][:12],
+                   'real_stdout': (r.get('stdout') or '')[:300]}
+        for sig, what in hits:
+            corr.violations.append(Violation(sig, what, payload))
+        if case:
+            model_cases.append(case)
+    if model_cases:
+        src = file_twosink(model_cases).replace('bad_from two_eqb two_run', 'bad_from two_eqb (fun ls => (fst (two_run ls), ([], [])))')
+        for name_, (ok, o) in ctx.coq_eval_many({'fs_0': src}).items():
+            badl = C.parse_nat_list(o) if ok else None
+            if badl is None:
+                corr.mismatches.append({'kind': 'coq-eval-failed', 'file': name_, 'log': o[-600:]})
+            else:
+                for b in badl:
+                    corr.mismatches.append({'kind': 'finding-scenario-model', 'labels': [[x if not isinstance(x, str) else x[:60] for x in l] for l in model_cases[b][0]][:30],
+                                            'events': [[t, x[:60]] for t, x in model_cases[b][1]][:30]})
+    corr.extra['finding_scenarios_run'] = len(named)
+
+
 def order_violations(corr: Corr):
     """system-level hits first (the replay of a whole program is the more convincing one), smallest first"""
     corr.violations.sort(key=lambda v: (0 if v.data.get('level') == 'system' else 1,
@@ -1324,7 +1556,10 @@ def correspond(ctx) -> Corr:
     corr.extra['exhaustive_bound'] = f'all write sequences of length <= {exh} over 11 labels (2 actors x 5 newline shapes + 1 untraced write)'
     ctx.log(f'pure level done: {corr.evaluations} cases, mismatches={len(corr.mismatches)}, oracle hits={len(corr.violations)}')
     run_twosink(ctx, corr, FIXED_TWOSINK + gen_twosink_cases(rng, 300 if ctx.tier == 'quick' else 3000, 16 if ctx.tier == 'quick' else 40), seen)
+    run_twosink(ctx, corr, FIXED_TWOSINK_FINDINGS + gen_twosink_finding_cases(rng, 40 if ctx.tier == 'quick' else 400), seen)
     ctx.log(f'two-sink level done: {corr.extra["twosink_cases"]} cases, mismatches={len(corr.mismatches)}, oracle hits={len(corr.violations)}')
+    run_findings(ctx, corr)
+    ctx.log(f'finding scenarios done: {corr.extra.get("finding_scenarios")}, mismatches={len(corr.mismatches)}, oracle hits={len(corr.violations)}')
     fixed = fixed_programs() + corpus_progs
     progs = fixed + gen_programs(rng, n_prog)
     run_system(ctx, corr, progs, seen, fixed_first=len(fixed))
@@ -1356,7 +1591,7 @@ def search(ctx, broken) -> list:
             break
     for ops in FIXED_TWOSINK + gen_twosink_cases(rng, 400, 20):
         try:
-            got, real, _, _ = impl_twosink(ops)
+            got, real = impl_twosink(ops)[:2]
         except Exception as e:
             corr.violations.append(Violation('capture-raised', f'two-sink level: the real code raised {e!r}', {'level': 'twosink', 'ops': ops}))
             break
@@ -1394,12 +1629,26 @@ def shrink_plain(ops, sig):
 
 def replay(ctx, path: Path) -> int:
     j = json.loads(Path(path).read_text())
-    if j.get('level') == 'twosink':
+    if j.get('scenario'):
+        from .. import child
+        job = j['job']
+        r = child.run_jobs([dict(job, form='str', trace_threads=True, trace_modules=False)])[0]
+        print('program:\n' + job['src'])
+        print('policy :', job['policy'])
+        if r.get('error') or r.get('fmt_exc'):
+            print('run failed:', r.get('error'), r.get('fmt_exc'))
+            return 2
+        print('commands sent       :', r.get('sent'))
+        print('OnWriteStdout events:', [[e['trace_no'], e['text'][:80], len(e['text'])] for e in r.get('events', []) if e.get('type') == 'OnWriteStdout'])
+        print('prompt texts        :', [[e['trace_no'], e.get('prompt_text', '')[:160]] for e in r.get('events', []) if e.get('type') == 'OnStartPrompt'])
+        print('real stdout         :', repr((r.get('stdout') or '')[:200]))
+        bad, _, _ = analyse_finding(j['scenario'], job, r)
+    elif j.get('level') == 'twosink':
         ops = j['ops']
-        got, real, asked, cmds = impl_twosink(ops)
-        print('labels   :', twosink_labels(ops))
-        print('callbacks:', got)
-        print('real     :', real)
+        got, real, asked, cmds, labels = impl_twosink(ops)
+        print('labels   :', [[x if not isinstance(x, str) else x[:80] for x in l] for l in labels])
+        print('callbacks:', [[k, t[:80]] for k, t in got])
+        print('real     :', [t[:80] for t in real])
         print('prompts  :', asked)
         bad = oracle_twosink(ops, got, real)
     elif j.get('level') == 'registrar':
